@@ -26,7 +26,7 @@ func init() {
 			"termination is observed by the per-run watchdog (a hang makes the run inconclusive, with the case id in the worker's current-case file)",
 			"the prefix relation is event-for-event on (delta, canonical message bytes); a missing end-of-track at the end of the last track is a legitimate prefix",
 		},
-		Require: []string{"truncations", "truncation_results_ok_value", "truncation_results_error", "mutants", "random_strings", "targeted", "alloc_measurements", "reads_with_log", "big_payload_truncations"},
+		Require: []string{"truncations", "truncation_results_ok_value", "truncation_results_error", "mutants", "random_strings", "targeted", "alloc_measurements", "reads_with_log", "big_payload_truncations", "proportionality_checks"},
 		UsesCur: true,
 		Run:     runC05,
 	})
@@ -330,6 +330,43 @@ func runC05(c *mon.Ctx) {
 			c.DistinctBytes([]byte(in))
 		})
 	}
+
+	// ---- proportionality: allocation per input byte must not grow with the input size
+	c.Each("proportionality", c.N(2, 6), func(i int64, r *mon.Rand) {
+		sizes := []int{1 << 20, 8 << 20}
+		if c.Thorough() {
+			sizes = []int{1 << 20, 4 << 20, 16 << 20}
+		}
+		var perByte []float64
+		for _, n := range sizes {
+			p := r.Bytes7(n)
+			var ev []byte
+			if i%2 == 0 {
+				ev = ref.Meta(0x01, p)
+			} else {
+				ev = append(append([]byte{0xF0}, p...), 0xF7)
+			}
+			b := (&ref.EncFile{Format: 0, Division: 96, NTracks: -1, Tracks: [][]ref.EncEv{{{Ev: ref.Ev{Delta: 0, Msg: ev}}, {Ev: ref.Ev{Delta: 0, Msg: ref.EOT}}}}}).Bytes(nil)
+			c.CurPayload([]byte(fmt.Sprintf("file with one payload of %d bytes", n)))
+			runtime.GC()
+			runtime.ReadMemStats(&k.ms)
+			before := k.ms.TotalAlloc
+			s, err := smf.ReadFrom(bytes.NewReader(b))
+			runtime.ReadMemStats(&k.ms)
+			if err != nil || s == nil {
+				c.Violation("big-file", fmt.Sprintf("valid file with a payload of %d bytes does not read: %v", n, err), n, nil, nil)
+				return
+			}
+			perByte = append(perByte, float64(k.ms.TotalAlloc-before)/float64(len(b)))
+			c.Count("alloc_measurements", 1)
+		}
+		c.MaxOf("max_alloc_bytes_per_input_byte_large_files", perByte[len(perByte)-1])
+		c.Count("proportionality_checks", 1)
+		if perByte[len(perByte)-1] > 2*perByte[0]+8 {
+			c.Violation("alloc-superlinear", fmt.Sprintf("allocation per input byte grows with the input: %.1f B/B for %d bytes, %.1f B/B for %d bytes", perByte[0], sizes[0], perByte[len(perByte)-1], sizes[len(sizes)-1]), fmt.Sprint(sizes), fmt.Sprintf("about %.1f B/B", perByte[0]), fmt.Sprint(perByte))
+		}
+		c.DistinctBytes([]byte(fmt.Sprint("prop", i)))
+	})
 
 	// ---- grammar-mutated files
 	c.Each("mutants", c.N(100_000, 4_000_000), func(i int64, r *mon.Rand) {
